@@ -361,7 +361,7 @@ func (c *Ctx) actionConstants() {
 func CheckC14(c *Ctx) {
 	run := c.Run
 	run.Technique = "stream-shape calculus on every strategy Report method: the template's range-over-dates with one Value() per column is a zip; every column's length and anchor are proved equal to the date stream's for symbolic configurations"
-	run.Explanation = "helper/report.tmpl ranges over .Date and calls .Value once on every column per row, so a report is a zip of the date stream with every column. For each of the strategy Report methods the date stream and every column stream (found through the constructed helper.Report object, not by name) are derived symbolically; every ReportColumn implementation's Value() takes exactly one value from its stream, unconditionally, on every call (one blocking receive outside any branch, loop or select, no other channel operation: a timeout or a skipped receive turns latency or content into a shift of every later row); for all admissible configurations and every n beyond the warm-up each column is proved to have exactly the date stream's length (no column runs dry, none keeps unconsumed values) and the same anchor with respect to the snapshots (row d carries the values computed for d). The indicator warm-up contracts these verdicts rest on (every indicator whose Compute was summarised by IdlePeriod() while a Report was analysed, and transitively the indicators it is built from) are re-proved by this check: max(0, n - IdlePeriod()) values anchored at IdlePeriod(). Values of the fixed columns, decided on their value terms: the date stream is the snapshots' Date field unchanged (no conversion or arithmetic), the column named Close is their Close field, the annotation column is ActionsToAnnotations of exactly the action term the strategy's own Compute yields, and the Outcome column is 100 * Outcome(Close, those actions)."
+	run.Explanation = "helper/report.tmpl ranges over .Date and calls .Value once on every column per row, so a report is a zip of the date stream with every column. For each of the strategy Report methods the date stream and every column stream (found through the constructed helper.Report object, not by name) are derived symbolically; every ReportColumn implementation's Value() takes exactly one value from its stream, unconditionally, on every call (one blocking receive outside any branch, loop or select, no other channel operation: a timeout or a skipped receive turns latency or content into a shift of every later row); for all admissible configurations and every n beyond the warm-up each column is proved to have exactly the date stream's length (no column runs dry, none keeps unconsumed values) and the same anchor with respect to the snapshots (row d carries the values computed for d). The indicator warm-up contracts these verdicts rest on (every indicator whose Compute was summarised by IdlePeriod() while a Report was analysed, and transitively the indicators it is built from) are re-proved by this check: max(0, n - IdlePeriod()) values anchored at IdlePeriod(). Values of the fixed columns, decided on their value terms: the date stream is the snapshots' Date field unchanged (no conversion or arithmetic), the column named Close is their Close field, the annotation column is ActionsToAnnotations of exactly the action term the strategy's own Compute yields, and the Outcome column is 100 * Outcome(Close, those actions). The annotation printed is that of the normalised action (SSA term of ActionsToAnnotations; Annotation decided on the three constants)."
 	run.Trusted = []string{"go/types", "template semantics: one Value() per column per date row (helper/report.tmpl read once; the rule re-checks that the template still ranges over .Date and calls .Value)", "declared IdlePeriod contracts (C02)", "Strategy contract for wrapped strategies (C05)", "Γ"}
 	reps := StrategyMethods(c.P, "Report")
 	run.Count("report_methods", len(reps))
